@@ -66,7 +66,11 @@ class C15(CoordMixin, Prop):
                     continue
                 st = impl.snapshot()
                 obs.append(f"{res} | {impl.dump(st)}")
-                extra.append({"info": info, "state": st, "res": res, "dl": impl.deadlock_view()})
+                try:
+                    dl = impl.deadlock_view()
+                except Exception as e:  # noqa  (check_deadlock() itself failing is an observation, not a harness error)
+                    dl = {"raised": type(e).__name__}
+                extra.append({"info": info, "state": st, "res": res, "dl": dl})
             return obs, extra
         kind, v = call_guarded(body, timeout=20.0)
         if kind == "hang":
@@ -82,6 +86,23 @@ class C15(CoordMixin, Prop):
         return f"cfg {lim} none none {rng.choice(['priority', 'priority', 'oldest'])}"
 
     def generate(self, rng, tier, n):
+        # classic cycles without any trigger event: must be detected, attributed to nothing
+        for i in range(max(10, n // 50)):
+            k = rng.choice([2, 2, 3])
+            order = list(range(1, k + 1))
+            rng.shuffle(order)
+            lines = [self._cfg(rng)] + [f"res {r} 0" for r in range(1, k + 1)]
+            for o in order:
+                lines.append(f"start {o} {rng.randint(0, 3)}")
+                if rng.random() < 0.5:
+                    lines.append("adv 2")
+            for o in order:
+                lines.append(f"acq {o} {o}")
+            for o in order:
+                lines.append(f"acq {o} {o % k + 1}")
+                lines.append("deadlock")
+            lines += ["watchdog", "deadlock", "watchdog"]
+            yield {"lines": lines, "note": "ring"}
         for i in range(n):
             nops = rng.choice([2, 3, 3])
             nres = rng.choice([2, 2, 3])
@@ -118,23 +139,6 @@ class C15(CoordMixin, Prop):
             lines.append("watchdog")
             lines.append("deadlock")
             yield {"lines": lines, "note": "random"}
-        # classic cycles without any trigger event: must be detected, attributed to nothing
-        for i in range(max(10, n // 50)):
-            k = rng.choice([2, 2, 3])
-            order = list(range(1, k + 1))
-            rng.shuffle(order)
-            lines = [self._cfg(rng)] + [f"res {r} 0" for r in range(1, k + 1)]
-            for o in order:
-                lines.append(f"start {o} {rng.randint(0, 3)}")
-                if rng.random() < 0.5:
-                    lines.append("adv 2")
-            for o in order:
-                lines.append(f"acq {o} {o}")
-            for o in order:
-                lines.append(f"acq {o} {o % k + 1}")
-                lines.append("deadlock")
-            lines += ["watchdog", "deadlock", "watchdog"]
-            yield {"lines": lines, "note": "ring"}
 
     def exhaustive(self, tier):
         depth = 3 if tier == "quick" else 4
@@ -198,6 +202,9 @@ class C15(CoordMixin, Prop):
             ref = {(z, owner[rr], rr) for z, rr in pend if owner.get(rr, "-") not in ("-", z)}
             ref_cycle = has_cycle({(a, b) for a, b, _ in ref})
             dl = ex.get("dl")
+            if dl is not None and "raised" in dl:
+                out.append(Violation("check_deadlock_returns", "None or a DeadlockInfo", f"raise:{dl['raised']}", idx))
+                break
             # ---- watchdog handling of a reported deadlock ----
             if k in ("watchdog", "maint") and info.get("pre_deadlock") and prev is not None:
                 D = info["pre_deadlock"]
